@@ -230,7 +230,10 @@ def dbits(x):
 
 
 def fbits(x):
-    return struct.unpack("<I", struct.pack("<f", x))[0]
+    try:
+        return struct.unpack("<I", struct.pack("<f", x))[0]
+    except OverflowError:
+        return 1 << 40        # a finite value outside the range of float: never a valid observation
 
 
 def lit_type(value, decimal, suffix):
@@ -706,12 +709,13 @@ def run_value_probes(ck, cp, probes, targ, what, stats):
             continue
         if exp[i] is None:
             if not same_mc:
-                ck.violation({"kind": "model-vs-compiler", "target": targ, "program": prog, "compiler": got,
-                              "model": m, "what": "cproc-qbe and Model/Eval.lean disagree on an expression "
-                              "C leaves undefined (no failing input exists for the property itself)",
-                              "theorem": "correspondence Model/Eval.lean ~ eval.c (C04.shift_count_guard / "
-                              "undefined_left_unfolded)"}, nofail=True)
-                stats["violations"] += 1
+                # kept back: reported at the end only if the search finds no real failing input
+                ck.c04_nofail.append({"kind": "model-vs-compiler", "target": targ, "program": prog, "compiler": got,
+                                      "model": m, "what": "cproc-qbe and Model/Eval.lean disagree on an expression "
+                                      "C leaves undefined (no failing input exists for the property itself)",
+                                      "theorem": "correspondence Model/Eval.lean ~ eval.c (C04.shift_count_guard / "
+                                      "undefined_left_unfolded)"})
+                stats["undefined_mismatch"] = stats.get("undefined_mismatch", 0) + 1
             continue
         ok = got == exp[i] or nan_equal(got, exp[i], p.dest)
         stats["checked"] += 1
@@ -1410,6 +1414,7 @@ def run(ck):
     if not ck.proofs_ok:
         ck.notes.append("Props.C04 does not build; searching for a failing input")
     cp = Compiler(ck)
+    ck.c04_nofail = []
     stats = {"checked": 0, "undefined_dropped": 0, "violations": 0, "oplevel": 0, "contexts": 0, "address": 0,
              "literals": 0, "runtime": 0, "malformed": 0, "gcc_validated": 0}
     all_probes = []
@@ -1439,6 +1444,9 @@ def run(ck):
         run_malformed(ck, cp, targ, stats)
     if all_probes:
         validate_with_gcc(ck, all_probes, stats)
+    if ck.c04_nofail and not ck.violations:
+        for rep in ck.c04_nofail[:2]:
+            ck.violation(rep, nofail=True)
     ck.cov["stats"] = stats
     ck.cov["input_distribution"] = {"operators": sorted(BINOPS), "integer_types": INT_NAMES, "targets": TARGETS}
     if not ck.proofs_ok and not ck.violations:
